@@ -45,6 +45,8 @@ class Tap:
         self.prev_closed = {}          # id(branch) -> bool
         self.prev_closed_checked = {}
         self.new_ticks = []
+        self.add_step = {}             # (id(branch), id(node)) -> tab.current_step when the add event fired
+        self.close_step = {}           # id(branch) -> tab.current_step when the close event fired
         self.born = {}                 # id(branch) -> (parent-id or None, nodes inherited, ticks inherited)
         self.order = []                # branch ids in AFTER_BRANCH_ADD order
         self.rule_applies = 0
@@ -78,14 +80,16 @@ class Tap:
         self._ev('AFTER_BRANCH_ADD', branch=id(branch), step=self.tab.current_step)
 
     def _branch_close(self, branch):
+        self.close_step.setdefault(id(branch), self.tab.current_step)
         self._ev('AFTER_BRANCH_CLOSE', branch=id(branch), step=self.tab.current_step)
 
     def _node_add(self, node, branch):
+        self.add_step.setdefault((id(branch), id(node)), self.tab.current_step)
         self._ev('AFTER_NODE_ADD', branch=id(branch), node=id(node), step=self.tab.current_step)
 
     def _node_tick(self, node, branch):
         self._ev('AFTER_NODE_TICK', branch=id(branch), node=id(node), step=self.tab.current_step)
-        self.new_ticks.append((node, branch))
+        self.new_ticks.append((node, branch, self.tab.current_step))
 
     def _trunk(self, tab):
         self.trunk_built = True
@@ -163,7 +167,7 @@ class Tap:
                 first_new = len(before.get(id(b.parent), ()))
             self._check_steps(b, bi, nodes, first_new, cur)
         # ticks that happened since the last check
-        for node, branch in self.new_ticks:
+        for node, branch, ev_step in self.new_ticks:
             try:
                 st = tab.stat(branch, node, 'STEP_TICKED')
                 sa, _ = _node_steps(tab, branch, node)
@@ -175,6 +179,9 @@ class Tap:
             else:
                 if st > cur:
                     P('step-ticked-in-the-future', step=st, current=cur)
+                elif st > ev_step:
+                    # recorded with a step number that had not been reached when the tick happened
+                    P('step-ticked-in-the-future', step=st, current=ev_step, at='tick-event')
                 if sa is not None and st < sa:
                     P('step-ticked-before-added', ticked=st, added=sa)
             if not branch.is_ticked(node):
@@ -205,6 +212,15 @@ class Tap:
                     P('step-added-decreases-along-branch', branch=bi, step=sa, previous=last)
                 if sa > cur:
                     P('step-added-in-the-future', branch=bi, step=sa, current=cur)
+                else:
+                    x = b
+                    while x is not None:
+                        ev = self.add_step.get((id(x), id(n)))
+                        if ev is not None:
+                            if sa > ev:
+                                P('step-added-in-the-future', branch=bi, step=sa, current=ev, at='add-event')
+                            break
+                        x = x.parent
                 last = max(last, sa)
                 if getattr(n, 'step', None) is not None and n.step > cur:
                     P('node-step-in-the-future', branch=bi)
@@ -214,6 +230,8 @@ class Tap:
                 sc = sc if isinstance(sc, int) and not isinstance(sc, bool) else int(getattr(sc, 'value', 0))
                 if sc > cur:
                     P('step-closed-in-the-future', branch=bi, step=sc, current=cur)
+                elif sc > self.close_step.get(id(b), cur):
+                    P('step-closed-in-the-future', branch=bi, step=sc, current=self.close_step[id(b)], at='close-event')
                 if sc < last:
                     P('step-closed-before-last-addition', branch=bi, closed=sc, last_added=last)
         except Exception as e:
